@@ -94,16 +94,26 @@ Prefixed(m) == IF m # <<>> /\ m[1] = "w" THEN m ELSE <<"w">> \o m       \* adjac
 RecastSum(o) == IF o.cls = "IntegrationError" THEN Raised("IntegrationError", Prefixed(o.msg)) ELSE o
 
 (* ------------------------------------------------------------------ the call as a state machine *)
-VARIABLES c,        \* the case: [gk, debug, form, n, v, expect, answers, credit]
+\* what a grading step that returns hands to the stages after the try block: the result earned credit or not, and
+\* its feedback message -- author's text, spelled in the ways that break naive text templating
+ResultMsgs == {"none", "plain", "fmt0", "fmtx", "pcts", "pctmap", "bslash", "lbrace", "rbrace", "braces", "nl"}
+Returned(credited, rmsg) == [k |-> "return", credited |-> credited, rmsg |-> rmsg]
+\* LinearCredit as configured by the instruments: full credit on the first attempt, less afterwards
+Reduced(attempt) == attempt >= 2
+
+VARIABLES c,        \* the case: [gk, debug, form, n, v, expect, answers, credit, attempt]
           pc,       \* "start" "infer" "ensure" "check" "evalfn" "matheval" "sumcheck" "wrap" "post" "returned" "escaped"
           origin,   \* where the failure started (user function / operator), before any recasting
           inner,    \* what reaches the wrapper (or escapes outside it)
           esc,      \* what edX observes
+          ret,      \* what a returned result carries: [keeps (the feedback message), noted (attempt-credit note added)]
           trail     \* the blocks executed, in order
-vars == <<c, pc, origin, inner, esc, trail>>
+vars == <<c, pc, origin, inner, esc, ret, trail>>
 
 Cases == {x \in [gk : Kinds, debug : BOOLEAN, form : Forms, n : 1..MaxN, v : 1..Variants,
-                 expect : {"none", "given"}, answers : BOOLEAN, credit : {"off", "on", "noattempt"}] :
+                 expect : {"none", "given"}, answers : BOOLEAN, credit : {"off", "on", "noattempt"},
+                 attempt : 0..3] :
+            /\ (x.credit = "on") <=> (x.attempt >= 1)                        \* edX supplies the attempt number, or not
             /\ (x.form \in {"text", "nontext"}) => x.n = 1
             /\ (x.form = "mixedlist") => x.n = 2
             /\ (x.form \in {"text", "textlist"}) => x.v = 1
@@ -115,10 +125,10 @@ Cases == {x \in [gk : Kinds, debug : BOOLEAN, form : Forms, n : 1..MaxN, v : 1..
 
 Kind(x) == InputKind(Req[x.gk], x.form)
 InputOf(x) == [kind |-> Kind(x), form |-> x.form, names |-> Names(x.n)]
-Step(name, next) == pc' = next /\ trail' = Append(trail, name)
+Step(name, next) == pc' = next /\ trail' = Append(trail, name) /\ (name # "post" => UNCHANGED ret)
 EscapeWith(name, e) == esc' = e /\ Step(name, "escaped")
 
-Init == c \in Cases /\ pc = "start" /\ origin = NotRun /\ inner = NotRun /\ esc = NotRun /\ trail = <<>>
+Init == c \in Cases /\ pc = "start" /\ origin = NotRun /\ inner = NotRun /\ esc = NotRun /\ ret = NotRun /\ trail = <<>>
 
 \* ItemGrader.__call__: inference happens iff an expect value arrives and there are no configured answers
 Start == /\ pc = "start"
@@ -142,7 +152,8 @@ Ensure == /\ pc = "ensure"
 FaultMsgs(cl) == IF cl \in MITxFamily THEN Msgs ELSE OutsiderMsgs
 \* self.check(None, student_input): the environment decides
 Check == /\ pc = "check"
-         /\ \/ inner' = Ret /\ Step("check", "post") /\ UNCHANGED <<c, origin, esc>>
+         /\ \/ /\ inner' \in (IF c.credit = "on" THEN {Returned(b, m) : b \in BOOLEAN, m \in ResultMsgs} ELSE {Ret})
+               /\ Step("check", "post") /\ UNCHANGED <<c, origin, esc>>
             \/ /\ Via[c.gk] = "direct"
                /\ \E cl \in CheckFaults : \E m \in FaultMsgs(cl) :
                     inner' = Raised(cl, m) /\ Step("check", "wrap") /\ UNCHANGED <<c, origin, esc>>
@@ -174,14 +185,19 @@ Wrap == /\ pc = "wrap"
              ELSE Escape("StudentFacingError", GenericMsg(c.form, Names(c.n))))
         /\ UNCHANGED <<c, origin, inner>>
 
-\* after the try block: key filtering, attempt-based credit (raises ConfigError when edX passes no attempt number),
-\* debug log, format_messages
+\* after the try block -- nothing here is protected: key filtering, attempt-based credit (ConfigError when edX passes
+\* no attempt number; otherwise grades are scaled and, when credit was reduced for a result that earned some, a note
+\* is added to the feedback message WHATEVER that message contains), debug log, format_messages
 Post == /\ pc = "post"
         /\ IF c.credit = "noattempt"
            THEN /\ inner' = Raised("ConfigError", LibMsg)
                 /\ EscapeWith("post", Escape("ConfigError", TextMsg(LibMsg)))
-                /\ UNCHANGED <<c, origin>>
-           ELSE Step("post", "returned") /\ UNCHANGED <<c, origin, inner, esc>>
+                /\ UNCHANGED <<c, origin, ret>>
+           ELSE /\ Step("post", "returned")
+                /\ ret' = IF c.credit = "on"
+                          THEN [keeps |-> inner.rmsg, noted |-> (Reduced(c.attempt) /\ inner.credited)]
+                          ELSE [keeps |-> "none", noted |-> FALSE]
+                /\ UNCHANGED <<c, origin, inner, esc>>
 
 Next == Start \/ Infer \/ Ensure \/ Check \/ EvalFn \/ MathEval \/ SumCheck \/ Wrap \/ Post
 Spec == Init /\ [][Next]_vars /\ WF_vars(Next)
@@ -235,6 +251,12 @@ ArithFaults == (pc = "escaped" /\ origin.k = "raise" /\ ~c.debug /\ Via[c.gk] = 
                   => IF origin.cls \in {"ZeroDivisionError", "OverflowError"}
                      THEN esc.cls \in {"CalcZeroDivisionError", "CalcOverflowError"} /\ esc.msg = TextMsg(LibMsg)
                      ELSE esc.cls = "StudentFacingError" /\ esc.msg.t = "generic"
+\* the stages after the grading step: for a gradable input with a supplied attempt number (or no attempt credit at
+\* all) a grading step that returned is followed by a returned result -- for EVERY feedback message -- and the
+\* message is still in it; the note appears exactly when credit was reduced for a credited result
+PostReturns == (Finished /\ Did("post") /\ c.credit # "noattempt") => pc = "returned"
+PostKeepsMessage == (pc = "returned" /\ c.credit = "on") => (ret.keeps = inner.rmsg /\ (ret.noted <=> (c.attempt >= 2 /\ inner.credited)))
+OnlyPostCanFailAfterCheck == (pc = "escaped" /\ Did("post")) => (c.credit = "noattempt" /\ esc.cls = "ConfigError")
 \* the order of blocks
 TrailShape == Finished => /\ trail[1] = "start"
                           /\ Did("infer") => (IsItem(c.gk) /\ c.expect = "given" /\ ~c.answers)
